@@ -78,11 +78,12 @@ def check_trace(tr, outcome, apps=('vapp', 'wapp', 'xapp'), ignore_tables=()):
     return problems
 
 
-def saved_problems(tr):
-    """`evolved` means everything was saved: every evolution announced as applied is recorded"""
+def saved_problems(tr, alias='default'):
+    """`evolved` means everything was saved: every evolution announced as applied is recorded - in the database
+    that was evolved"""
     if not any(e[0] == 'signal' and e[1] == 'evolved' for e in tr.events):
         return []
-    recorded = set((e[0], e[1]) for e in evorig.bookkeeping()['evolutions'])
+    recorded = set((e[0], e[1]) for e in evorig.bookkeeping(alias)['evolutions'])
     out = []
     for e in tr.events:
         if e[0] == 'signal' and e[1] == 'applied_evolution':
@@ -105,6 +106,7 @@ def run(ctx):
                 'nothing-to-do run, each fault-free and with an injected failure at EVERY write-statement index; '
                 'non-trivial = the trace has at least one applying/creating pair; distinct by (case, k)')
     shared_label_runs(ctx)
+    other_database_runs(ctx)
     migration_runs(ctx, quick)
     migration_app_runs(ctx)
     ncases = 9 if quick else 120
@@ -287,6 +289,40 @@ def migration_runs(ctx, quick):
 class _Shim(object):
     def __init__(self, events):
         self.events = [tuple(e) for e in events]
+
+
+def other_database_runs(ctx):
+    """the same upgrade on a second database (Evolver(database_name='other')), after the default one was
+    upgraded: signals, and `evolved` => recorded THERE; the default database is not touched"""
+    import random
+    from .. import dbrig
+    done = tries = 0
+    while done < 3 and tries < 12 and ctx.time_left() > 30:
+        tries += 1
+        case = evocases.gen_upgrade(random.Random(ctx.seed * 31 + tries))
+        if case is None:
+            continue
+        evorig.fresh_databases()
+        evorig.clear_evolutions()
+        evorig.install_models(case['spec0'])
+        if evorig.run_evolver('default')[0] != 'ok' or evorig.run_evolver('other')[0] != 'ok':
+            continue
+        evocases.install_v1(case)
+        if evorig.run_evolver('default')[0] != 'ok':
+            continue
+        before_default = evorig.snapshot('default')
+        tr = evorig.Trace('other')
+        r = evorig.run_evolver('other', trace=tr)
+        if r[0] != 'ok':
+            continue
+        done += 1
+        ctx.count('other_database:runs')
+        rep = {'scenario': 'upgrade of database `other`', 'spec0': case['spec0'], 'mutations': case['muts']}
+        ctx.case(dict(scenario=rep['scenario'], signals=[x[0] for x in tr.signals()]), nontrivial=True, sample_cap=2)
+        for p in check_trace(tr, 'ok') + saved_problems(tr, 'other'):
+            ctx.fail(None, 'other database: %s' % p, dict(rep, signals=tr.signals()))
+        if evorig.snapshot('default') != before_default:
+            ctx.fail(None, 'other database: the run wrote to the default database', dict(rep, signals=tr.signals()))
 
 
 def shared_label_runs(ctx):
